@@ -48,6 +48,9 @@ def gen_program(rng, devs):
             if tgt != 0:          # `.org 0` after items is a recorded finding; an .org to 0 at offset 0 adds nothing
                 lines.append('.org %s' % rng.choice(['%d', '0x%x', '%d + 0']) % tgt)
                 off[seg] = tgt
+                # a redundant directive for the SAME memory right after the .org must not lose it
+                if rng.random() < .25:
+                    lines.append({'c': '.cseg', 'd': '.dseg', 'e': '.eseg'}[seg])
         for _ in range(nitems):
             r = rng.random()
             if r < .3:
